@@ -240,7 +240,7 @@ func (r *rewriter) rewrite() (bool, error) {
 		case *ast.SelectorExpr:
 			if tn, ok := r.info.Uses[x.Sel].(*types.TypeName); ok && tn.Pkg() != nil && tn.Pkg().Path() == "sync" {
 				switch tn.Name() {
-				case "RWMutex", "Mutex", "WaitGroup", "Once":
+				case "RWMutex", "Mutex", "WaitGroup", "Once", "Map", "Pool", "Locker":
 				default:
 					r.fail(x, "sync.%s is not supported by the instrumenter", tn.Name())
 				}
